@@ -52,6 +52,29 @@ pub fn gen_case(rng: &mut Rng, i: usize, maxrecs: usize) -> CovCase {
         // only zero-length records: the final batch has total length 0
         recs = vec![Vec::new(); 1 + rng.below(3) as usize];
     }
+    // crafted cases
+    if i % 10 == 9 {
+        // k = 17: canonical k-mers that differ only above bit 32 (A+S, C+S, G+S with S ending in A so that the forward
+        // strand is the canonical one) with different multiplicities - a table keyed by a truncated code would merge them
+        let s16: Vec<u8> = (0..15).map(|_| *rng.pick(b"ACGT")).chain(std::iter::once(b'A')).collect();
+        let mk1 = |p: u8| -> Vec<u8> { std::iter::once(p).chain(s16.iter().copied()).collect() };
+        let mut recs: Vec<Vec<u8>> = vec![mk1(b'A')];
+        for _ in 0..7 {
+            recs.push(mk1(b'C'));
+        }
+        for _ in 0..3 {
+            recs.push(mk1(b'G'));
+        }
+        return CovCase { k: 17, bs: 2, bc: 5, norm: false, threads: 3, mem: 6.0, delim: " ", recs, crecs: None };
+    }
+    if i % 10 == 8 {
+        // multiplicities that are exact multiples of an awkward bin size (49, 98, 103, 107: 1/bs is not exact in binary)
+        let bs = *rng.pick(&[49usize, 98, 103, 107]);
+        let mult = bs * (1 + rng.below(3) as usize);
+        let crecs = vec![vec![b'A'; mult + 2], b"ACGTTGCA".to_vec()];     // AAA occurs exactly `mult` times
+        let recs = vec![b"AAAAA".to_vec(), b"ACGTT".to_vec(), b"TTTT".to_vec()];
+        return CovCase { k: 3, bs, bc: 5, norm: i % 20 == 8, threads: 2, mem: 6.0, delim: ",", recs, crecs: Some(crecs) };
+    }
     let cn = rng.range(0, maxrecs as u64) as usize;
     let crecs = if i % 3 == 1 { Some(mk(rng, cn, i + 4)) } else { None };
     CovCase {
